@@ -128,7 +128,16 @@ def run(ctx):
               f"normalised channel numbers can lie in {chs!r}, outside [1, {consts.get('CHANNELS', 4)}]: commands may address a non-existent channel")
     # ---------------- every command site
     n_sites = 0
+    # private helpers that other methods call are analysed where they are called (with the caller's values), not as entry points
+    called_helpers = set()
     for name, m in ci.methods.items():
+        for n_ in ast.walk(m.node):
+            if isinstance(n_, ast.Call) and isinstance(n_.func, ast.Attribute) and isinstance(n_.func.value, ast.Name) and n_.func.value.id == "self" \
+                    and n_.func.attr in helpers and n_.func.attr != name:
+                called_helpers.add(n_.func.attr)
+    for name, m in ci.methods.items():
+        if name in called_helpers:
+            continue
         if name in ("_query", "__init__", "__del__", "_check_channels"):
             if name != "__init__":
                 continue
@@ -178,6 +187,25 @@ def run(ctx):
         ctx.unknown("C20.3", None, None, "set_data", "missing")
     else:
         q = [n for n in body_nodes(sd) if isinstance(n, ast.Call) and src_of(n.func) == "self._query" and n.args and isinstance(n.args[0], ast.JoinedStr)]
+        start_name = "start_addrs"
+        if not q:
+            # the per-channel transfer may live in a private helper method called from set_data
+            for n_ in body_nodes(sd):
+                if isinstance(n_, ast.Call) and isinstance(n_.func, ast.Attribute) and isinstance(n_.func.value, ast.Name) and n_.func.value.id == "self" and n_.func.attr in ci.methods \
+                        and n_.func.attr not in ("_query", "_check_channels"):
+                    hm = ci.methods[n_.func.attr]
+                    hq = [n for n in body_nodes(hm) if isinstance(n, ast.Call) and src_of(n.func) == "self._query" and n.args and isinstance(n.args[0], ast.JoinedStr)]
+                    if len(hq) == 1:
+                        # the helper's parameter that receives set_data's start address
+                        hparams = [a.arg for a in hm.node.args.args if a.arg != "self"]
+                        for i_, a_ in enumerate(n_.args):
+                            if src_of(a_) == "start_addrs" and i_ < len(hparams):
+                                start_name = hparams[i_]
+                        for k_ in n_.keywords:
+                            if src_of(k_.value) == "start_addrs":
+                                start_name = k_.arg
+                        sd, q = hm, hq
+                        break
         if len(q) != 1:
             ctx.unknown("C20.3", sd, sd.node, "set_data write command", f"{len(q)} command sites")
         else:
@@ -209,11 +237,22 @@ def run(ctx):
                 adv = [n for n in ast.walk(loop) if isinstance(n, ast.AugAssign) and isinstance(n.op, ast.Add) and src_of(n.value) == n_ and src_of(n.target) == (addr_var or "?")]
                 if not adv:
                     why.append("the address does not advance by the block length")
-                init = [n for n in body_nodes(sd) if isinstance(n, ast.Assign) and src_of(n.targets[0]) == (addr_var or "?") and src_of(n.value) == "start_addrs"]
+                init = [n for n in body_nodes(sd) if isinstance(n, ast.Assign) and src_of(n.targets[0]) == (addr_var or "?") and src_of(n.value) == start_name]
                 if not init:
                     why.append("the address does not start at start_addrs")
-                if "join" not in defs.get(d_, ""):
-                    why.append("payload is not the joined bit characters of the block")
+                pay = defs.get(d_, "")
+                if "join" not in pay:
+                    # or: a slice of length n of the whole channel's joined bit string, at an offset that advances by n from 0
+                    m_ = re.fullmatch(r"(\w+)\[(\w+):(\w+)\+(\w+)\]", pay)
+                    ok_slice = False
+                    if m_ and m_.group(2) == m_.group(3) and m_.group(4) == n_:
+                        whole, off = m_.group(1), m_.group(2)
+                        joined = [n for n in body_nodes(sd) if isinstance(n, ast.Assign) and src_of(n.targets[0]) == whole and "join" in src_of(n.value)]
+                        off0 = [n for n in body_nodes(sd) if isinstance(n, ast.Assign) and src_of(n.targets[0]) == off and src_of(n.value) == "0"]
+                        offadv = [n for n in ast.walk(loop) if isinstance(n, ast.AugAssign) and isinstance(n.op, ast.Add) and src_of(n.target) == off and src_of(n.value) == n_]
+                        ok_slice = bool(joined and off0 and offadv)
+                    if not ok_slice:
+                        why.append("payload is not the joined bit characters of the block")
             else:
                 why.append("command does not have the six fields ch, addr, n, #k n data")
             ctx.check("C20.3", not why, sd, q[0], f"set_data framing `{src_of(js)[:90]}`", "#<k><n><n bits> at consecutive addresses", "; ".join(why))
@@ -222,17 +261,26 @@ def run(ctx):
     if gd is None:
         ctx.unknown("C20.4", None, None, "get_data", "missing")
     else:
-        appends = [n for n in body_nodes(gd) if isinstance(n, ast.Call) and isinstance(n.func, ast.Attribute) and n.func.attr == "append" and in_loop(n)]
+        scopes = [gd]
+        for n_ in body_nodes(gd):
+            if isinstance(n_, ast.Call) and isinstance(n_.func, ast.Attribute) and isinstance(n_.func.value, ast.Name) and n_.func.value.id == "self" and n_.func.attr in ci.methods \
+                    and n_.func.attr not in ("_query", "_check_channels") and ci.methods[n_.func.attr] not in scopes:
+                scopes.append(ci.methods[n_.func.attr])
         inner = None
-        for a in appends:
-            loops = [p for p in _parents(a) if isinstance(p, ast.For)]
-            if len(loops) == 2:
-                inner = a
+        gd_scope = gd
+        for sc in scopes:
+            appends = [n for n in body_nodes(sc) if isinstance(n, ast.Call) and isinstance(n.func, ast.Attribute) and n.func.attr == "append" and in_loop(n)]
+            for a in appends:
+                loops = [p for p in _parents(a) if isinstance(p, ast.For)]
+                # the per-block list: appended once per block read (the loop whose body sends the read command)
+                sends = any(isinstance(x, ast.Call) and src_of(x.func) == "self._query" for lp_ in loops[:1] for x in ast.walk(lp_))
+                if sends and (len(loops) == 2 or sc is not gd):
+                    inner, gd_scope = a, sc
         if inner is None:
             ctx.unknown("C20.4", gd, gd.node, "get_data block accumulation", "per-block append inside the channel loop not found")
         else:
             lst = src_of(inner.func.value)
-            uses = [n for n in body_nodes(gd) if isinstance(n, ast.Call) and any(isinstance(x, ast.Name) and x.id == lst for a_ in n.args for x in ast.walk(a_)) and n is not inner]
+            uses = [n for n in body_nodes(gd_scope) if isinstance(n, ast.Call) and any(isinstance(x, ast.Name) and x.id == lst for a_ in n.args for x in ast.walk(a_)) and n is not inner]
             joined = [n for n in uses if src_of(n.func).split(".")[-1] in ("concatenate", "hstack")]
             stacked = [n for n in uses if src_of(n.func).split(".")[-1] in ("array", "asarray", "stack", "vstack")]
             if joined and not stacked:
